@@ -4,7 +4,7 @@ Tie (N): Model/C08_Arcs.v transcribes arc_from_theta, arc_from_origin (both bran
 arc_length_3point, ArcEdgeBase.length and polyline_length as real-valued functions.  For every generated
 case the real edge classes of /repo are run (AngleEdge / OriginEdge / ArcEdge / SplineEdge ... built by the
 edge factory on Vertex objects), the doubles they return are turned into exact dyadic literals and Coq
-decides (tactic `interval`, 80 bits) that the model applied to the same inputs agrees within the tolerance
+decides (tactic `interval`, 64 then 120 bits, staged enclosures: Proofs/C08_Corr.v) that the model applied to the same inputs agrees within the tolerance
 of DESIGN 2.4, including the branch the code took.  The theorems of Properties/C08.v are about that model.
 
 Direct oracle (independent of the Coq model): every case is generated FROM an analytic circle
@@ -679,7 +679,7 @@ class C08(Prop):
     property_files = ["Properties/C08.v"]
     trusted = [
         "hand-written model Model/C08_Arcs.v of arc_from_theta / arc_from_origin / arc_mid / arc_length_3point / "
-        "ArcEdgeBase.length / polyline_length; tied to the code by sampled, kernel-decided numeric agreement (interval, 80 bits), "
+        "ArcEdgeBase.length / polyline_length; tied to the code by sampled, kernel-decided numeric agreement (interval, 64/120 bits), "
         "not for all inputs",
         "numpy/scipy floating point arithmetic read as real arithmetic within 1e-9 relative (1e-6 where acos is evaluated "
         "within 1e-6 of its end points)",
